@@ -4,6 +4,7 @@
 EXTENDS FileFeatures, TLC, Json
 CONSTANTS MaxFeatures, ExportMin,
           FormChoices,   \* input forms to assign per file (C09): subset of {"source","ast","parse","proto"}
+          SampleAbove,   \* states with more form assignments than this export 16 random ones instead of all
           FormSample,    \* TRUE: export one random form assignment per state instead of all of them
           ModeChoices    \* source-info modes: subset of {"none","standard","extra"}
 VARIABLES syntax, fs
@@ -19,7 +20,8 @@ UsedFiles == {"main"} \cup (IF "import" \in fs THEN {"dep"} ELSE {}) \cup (IF "p
 Case(fm, mo) == [syntax |-> syntax, features |-> fs, deps |-> Deps(fs), kinds |-> Kinds(syntax, fs),
                  forms |-> fm, simode |-> mo]
 Export == (Valid(syntax, fs) /\ (Cardinality(fs) >= ExportMin)) =>
-            IF FormSample
-              THEN PrintT("CASE " \o ToJson(Case(RandomElement([UsedFiles -> FormChoices]), RandomElement(ModeChoices))))
+            IF FormSample \/ Cardinality([UsedFiles -> FormChoices]) > SampleAbove
+              THEN \A i \in 1..(IF FormSample THEN 1 ELSE 16) :
+                     PrintT("CASE " \o ToJson(Case(RandomElement([UsedFiles -> FormChoices]), RandomElement(ModeChoices))))
               ELSE \A fm \in [UsedFiles -> FormChoices] : \A mo \in ModeChoices : PrintT("CASE " \o ToJson(Case(fm, mo)))
 =============================================================================
